@@ -61,7 +61,7 @@ def gen() -> None:
 
 # ====================================================================== harness
 
-TEXT_ALPHA = ["a", "b", "Z", "0", " ", "+", "&", "=", "%", "%41", "%zz", "/", "?", "#", ";", "é", "€", "\U0001f600", "\x00", "\n", "\r\n",
+TEXT_ALPHA = ["a", "b", "Z", "0", " ", "+", "&", "=", "%", "%41", "%zz", "%0A", "%0D", "%0a", "%0d", "%5C", "%25", "%20", "%3B", "%2522", "/", "?", "#", ";", "é", "€", "\U0001f600", "\x00", "\n", "\r\n",
               "'", "~", "-", "_", ".", "!", "*", "(", ")", ",", ":", "@", "$", "\x7f", "\xa0", "ÿ",
               # characters str.splitlines / str.strip / str.isspace treat specially but bytes.splitlines does not
               "\x0b", "\x0c", "\x1c", "\x1d", "\x1e", "\x1f", "\x85", "\u2028", "\u2029", "\u3000", "\t"]
@@ -219,7 +219,8 @@ def run(chk: Check) -> None:
     n_e2e = 600 if quick else 10000
     for _ in range(n_e2e):
         fields = [(gen_name(rng), gen_text(rng, 6)) for _ in range(rng.choice([0, 1, 2, 3]))]
-        files = [(gen_name(rng), gen_payload(rng, b"WerkzeugFormPart"), gen_name(rng) + ".bin",
+        files = [(gen_name(rng), gen_payload(rng, b"WerkzeugFormPart"),
+                  rng.choice([gen_name(rng) + ".bin", gen_name(rng), "", " ", "a b.txt"]),
                   rng.choice(["application/octet-stream", "text/plain", "image/png"])) for _ in range(rng.choice([0, 0, 1, 2]))]
         data = MultiDict()
         order = [("f", x) for x in fields] + [("F", x) for x in files]
